@@ -188,6 +188,7 @@ class PnLenOracle(Oracle):
         self.accepted_largest = None
         self.started = False
         self.n = 0
+        self.delivered_largest = -1
         self.lens = {1: 0, 2: 0, 3: 0, 4: 0}
         self.expected_accept = 0
         self.expected_reject = 0
@@ -213,12 +214,25 @@ class PnLenOracle(Oracle):
         c.crashed = True
         if c.timer_ev is not None:
             c.timer_ev.cancelled = True
-        self.accepted_largest = self.mon.state["client"].largest["app"]
-        self.base_largest = self.accepted_largest
         self.total = 6 + self.ch.choose(20)
         self.started = True
         self.last_at = sim.k.now
+        # what the client sent last may still be in flight (a bulk transfer over a slow path): the forger
+        # starts once everything has arrived, from the largest number that was DELIVERED to the server
+        sim.k.after(max(1.0, 4 * sim.cfg["latency"]), self.begin_forging, tag="app")
+
+    def begin_forging(self):
+        self.accepted_largest = max(self.delivered_largest, 0)
+        self.base_largest = self.accepted_largest
+        self.last_at = self.sim.k.now
         self.step()
+
+    def on_datagram_delivered(self, ep, dgram, copy_index):
+        if ep.is_client or dgram.sender != "client":
+            return
+        for p in dgram.meta or []:
+            if not p.opaque and p.space == "app" and p.pn is not None and p.pn > self.delivered_largest:
+                self.delivered_largest = p.pn
 
     def step(self):
         sim = self.sim
